@@ -382,11 +382,13 @@ func c01Eval(c *Ctx, kind string, raw []byte) {
 			return
 		}
 		dec := dom.DefaultYamlDecoder
-		prov := "x.yaml"
+		// every file name the provider documents for the format (a deterministic choice per text)
+		provs := []string{"x.yaml", "x.yml", "dir.d/a.b.yml", "/abs/conf.yaml", ".yml", "a.json.yaml"}
 		if p.Fmt == "json" {
 			dec = dom.DefaultJsonDecoder
-			prov = "x.json"
+			provs = []string{"x.json", "a/b.c.json", ".json", "x.yaml.json"}
 		}
+		prov := provs[int(hash64(text)%uint64(len(provs)))]
 		var cb dom.ContainerBuilder
 		var err error
 		out, txt := guard(func() { cb, err = dom.Builder().FromReader(bytes.NewReader(text), dec) })
@@ -423,6 +425,10 @@ func c01Eval(c *Ctx, kind string, raw []byte) {
 			c.Direct("text:provider-same", err2 == nil && canon(nodeWire(cb2)) == canon(nodeWire(cb)), nil)
 		})
 		c.Direct("text:no-panic(provider)", out == "ok", txt)
+		// names without a known suffix have no decoder and no encoder
+		for _, n := range []string{"x.txt", "yaml", "x.yaml.bak", "json", "x.", ""} {
+			c.Direct("provider:unknown-suffix-has-no-codec", common.DefaultFileDecoderProvider(n) == nil && common.DefaultFileEncoderProvider(n) == nil, n)
+		}
 	case "serialize":
 		var p c01Ser
 		if err := json.Unmarshal(raw, &p); err != nil {
